@@ -46,6 +46,7 @@ type Case struct {
 	SemOrig  bool         `json:"sem_orig"`
 	SemDump  bool         `json:"sem_dump"`
 	SemErr   string       `json:"sem_error,omitempty"`
+	Reread   *idlast.File `json:"reread,omitempty"` // the file as the recursive parser returns it for the dumped tree
 	EmptyTxt bool         `json:"empty_text_in_program,omitempty"` // some file of the program was dumped as the empty text
 	Source   string       `json:"source,omitempty"` // the IDL text the file was parsed from (corpus only)
 }
@@ -68,8 +69,12 @@ func (c *Case) coq(fm []fmtEntry) string {
 	if c.Reparse != nil {
 		re = "(Some " + c.Reparse.Coq() + ")"
 	}
-	return fmt.Sprintf("mkcase %s %s %s %s %s %s", c.File.Coq(), coqfmt.List(tbl), text, re,
-		coqfmt.Bool(c.SemOrig), coqfmt.Bool(c.SemDump))
+	rr := "None"
+	if c.Reread != nil {
+		rr = "(Some " + c.Reread.Coq() + ")"
+	}
+	return fmt.Sprintf("mkcase %s %s %s %s %s %s %s", c.File.Coq(), coqfmt.List(tbl), text, re,
+		coqfmt.Bool(c.SemOrig), coqfmt.Bool(c.SemDump), rr)
 }
 
 // ---------------------------------------------------------------- walking the real AST
@@ -441,6 +446,7 @@ type stats struct {
 	SemRejectDump      int            `json:"dumped_programs_rejected_by_semantic_pass"`
 	Programs           int            `json:"programs"`
 	Mutated            int            `json:"literals_rewritten"`
+	Reread             int            `json:"files_with_reread_tree_observation"`
 	GeneratorHung      int            `json:"generator_did_not_return"`
 	TrimmerRuns        int            `json:"trimmer_runs"`
 	TrimmerFailed      int            `json:"trimmer_failed"`
@@ -679,6 +685,22 @@ func (p *producer) program(name, root, mainRel string, r *rng.R, mutateNum int) 
 	if allText {
 		if t2, err := parseTree(outRoot, mainRel); err != nil {
 			semErr = "parse: " + err.Error()
+		} else if func() bool {
+			// the re-read tree, file by file, before the semantic pass rewrites it
+			byName := map[string]*parser.Thrift{}
+			for _, f2 := range files(t2) {
+				byName[f2.Filename] = f2
+			}
+			for i, f := range files(t) {
+				if f2 := byName[f.Filename]; f2 != nil {
+					if rr, err := safeAstdump(f2); err == nil {
+						cases[i].Reread = rr
+						p.st.Reread++
+					}
+				}
+			}
+			return false
+		}() {
 		} else if err := semOK(t2); err != nil {
 			semErr = err.Error()
 		} else {
